@@ -151,6 +151,63 @@ def run(ctx, replay_case):
                                                    f"{ds.pulls_of(l)} characters although the fields emitted so far ({off} bytes) plus one byte of look-ahead end at character {allowed}",
                                            "replay": {**c.replay("S"), "front_end": lay, "text": txt.decode("latin1")[:400], "event": l}})
                 break
+    # input spread over several files (`tpmstream convert a.bin b.bin`: `bytes_from_files`): a later file is read only when the
+    # decoder's look-ahead reaches it, and a later file that fails on read does not take away the fields of the earlier ones
+    # (seed C10l: all files read when the first byte is asked for)
+    from tpmstream.io import bytes_from_files
+    from tpmstream.io.binary import Binary
+    from tpmstream.common.event import MarshalEvent
+    from tpmstream.spec.commands import CommandResponseStream
+    nfiles = 0
+    streams_ = [c for c in wf if c.tname == "Stream" and len(c.data) > 8]
+    for c in rnd.sample(streams_, min(len(streams_), 12 if ctx.tier == "quick" else 80)):
+        k = rnd.choice([2, 3, 5])
+        cutp = sorted(rnd.sample(range(1, len(c.data)), min(k - 1, len(c.data) - 1)))
+        parts = [c.data[a:b] for a, b in zip([0] + cutp, cutp + [len(c.data)])]
+        starts = [0] + cutp
+        fail_at = rnd.choice([None, None, len(parts) - 1])
+
+        class _F:
+            mode = "rb"
+
+            def __init__(self, i):
+                self.i, self.done, self.when = i, False, None
+
+            def read(self):
+                if self.when is None:
+                    self.when = emitted[0]
+                if fail_at == self.i:
+                    raise OSError("read failed")
+                if self.done:
+                    return b""
+                self.done = True
+                return parts[self.i]
+        emitted = [0]
+        files = [_F(i) for i in range(len(parts))]
+        nfiles += 1
+        problem = None
+        try:
+            for ev in Binary.marshal(tpm_type=CommandResponseStream, buffer=bytes_from_files(files), abort_on_error=True):
+                if isinstance(ev, MarshalEvent) and ev.value is not ...:
+                    emitted[0] += type(ev.value)._int_size
+        except OSError:
+            pass
+        except Exception as e_:  # noqa
+            if fail_at is None:
+                problem = f"decoding the concatenation of {len(parts)} files ended with {type(e_).__name__}"
+        for f_ in files:
+            # (when a file is first read, the field in progress - at most 8 bytes - is pulled but not yet emitted)
+            if problem is None and f_.when is not None and f_.i > 0 and starts[f_.i] > f_.when + 8 + 1:
+                problem = (f"file #{f_.i + 1} (stream offset {starts[f_.i]}) was read when the fields emitted so far held only {f_.when} bytes: "
+                           f"more than one byte of look-ahead")
+        if problem is None and fail_at is not None and emitted[0] + 8 + 1 < starts[fail_at]:
+            problem = (f"file #{fail_at + 1} fails on read: only {emitted[0]} bytes of fields were emitted before the failure surfaced, "
+                       f"{starts[fail_at]} bytes precede that file")
+        if problem:
+            ctx.violations.append({"kind": "concrete", "signature": "files:lookahead", "what": "input spread over several files: " + problem,
+                                   "replay": {**c.replay("S"), "file_sizes": [len(p_) for p_ in parts], "failing_file": fail_at}})
+            break
+    ctx.stats.setdefault("inputs", {})["streams_spread_over_files"] = nfiles
     ctx.stats.update({
         "evaluations": len(wf) + len(cuts) + len(sample) * len(SOURCES) + len(fops),
         "distinct_nontrivial": len({(c.tname, c.data) for c in cuts if len(c.data) > 0}) + len(wf),
